@@ -73,7 +73,8 @@ class C07(scen.WorldProp):
                 from harness.props.c19 import method_msg
                 ev2 = [[t0 - 0.4, "msg", method_msg(spec["stage"])]] + [e for e in events if e[2].get("call") != GO]
                 for _ in range(rng.randint(1, 4)):
-                    kv = rng.choice([["stop_at_rounds", False], ["stop_at_rounds", False], ["stop_at_rounds", True],
+                    kv = rng.choice([["stop_at_rounds", False], ["stop_at_rounds", rng.choice([False, "false", "False"])],
+                                     ["stop_at_rounds", rng.choice([True, "true"])],
                                      ["use_up_down_in", True], ["call_composition", False]])
                     ev2.append([rng.uniform(t0 + 3, end - 3), "msg", {"m": "setting", "kvs": [kv]}])
                 if stop == STAND and rng.random() < 0.7:
@@ -117,7 +118,9 @@ class C07(scen.WorldProp):
         rows = scen.rows_from_strikes(reply, N)
         rounds = list(range(1, N + 1))
         sar = sc["bot"]["stop_at_rounds"]
-        switched = [ev[2]["kvs"][0][1] for ev in sc["events"] if ev[2].get("m") == "setting"
+        def as_bool(v):          # (a switch arrives as a JSON boolean or as the string "true" / "false")
+            return (v.strip().lower() == "true") if isinstance(v, str) else bool(v)
+        switched = [as_bool(ev[2]["kvs"][0][1]) for ev in sc["events"] if ev[2].get("m") == "setting"
                     and ev[2]["kvs"][0][0] == "stop_at_rounds"]
         sar_always = sar and all(switched)          # handbell style on for the whole session
         sar = sar or any(switched)                  # ... on at some time
@@ -132,6 +135,22 @@ class C07(scen.WorldProp):
             odd = [b for b, c in counts.items() if c % 2]
             if odd:
                 return f"bells {odd} were left at backstroke (odd number of strikes)"
+        if stopped and stop != STAND and len(rows) >= 2:
+            # nobody called Stand: only handbell style can have stopped it, so it must have been on at some moment of
+            # the last few rows (a switch that was turned off well before stays off, whatever the form of "off")
+            t_first, t_last = scen.b2f(strikes[0][0]), scen.b2f(strikes[-1][0])
+            window = 3.5 * (t_last - t_first) / max(1, len(rows) - 1)
+            val, on_in_window = sc["bot"]["stop_at_rounds"], False
+            changes = sorted((ev[0], ev[2]["kvs"][0][1]) for ev in sc["events"] if ev[2].get("m") == "setting"
+                             and ev[2]["kvs"][0][0] == "stop_at_rounds")
+            prev_t = float("-inf")
+            for (t, v) in changes + [(float("inf"), None)]:
+                if val and prev_t <= t_last and t >= t_last - window:
+                    on_in_window = True
+                prev_t, val = t, as_bool(v)
+            if not on_in_window:
+                return (f"Wheatley stopped by itself after {len(rows)} rows although nobody called Stand and handbell style "
+                        f"(stop at rounds) had been off for the last {window:.1f} s")
         if sar_always and stop != ROUNDS and rows:
             # handbell-style stop: once rounds has come up after the method started, the whole pull is completed
             # and nothing more is rung
